@@ -224,9 +224,10 @@ def run_group(g, workdir):
     # of representation in /repo) now expects another only draws a WARNING from the C front end and would then be "verified" on garbage;
     # that case is a harness that no longer fits the code: undecided, never a verdict.  Other warnings are not errors.
     rc, out = sh(cc[:1] + ['-Wall'] + cc[1:], timeout=300)
-    if 'incompatible pointer types' in out:
+    misfit = [l.strip() for l in out.splitlines() if 'incompatible pointer types' in l and '/harness/' in l.split(':')[0]]
+    if misfit:      # only diagnostics located in the harness: the lowered text itself iterates a map view through a layout-identical pair type
         r.status = 'error'
-        r.detail = 'the harness does not fit the lowered code any more (representation changed?): ' + ' | '.join(l.strip() for l in out.splitlines() if 'incompatible pointer types' in l)[:600]
+        r.detail = 'the harness does not fit the lowered code any more (representation changed?): ' + ' | '.join(misfit)[:600]
         r.log += out
         return r
     r.log += out
